@@ -6,6 +6,14 @@
 //!   {"kind":"c12:keylens","alg":A,"max":n,"fill":b} out = run-length encoded outcome per key length 0..=max
 //!   {"kind":"c12:selftest"}                          out = the Lean specifications' self tests (all true); the executor
 //!                                                    runs the standards' known-answer tests through LocalKey as oracle
+//!   {"kind":"c12:buf","alg":A,"key":hex,"msg":v,"nonce":hex,"aad":hex,"raw":v?,"extra":n,"stale":[a,b]}
+//!                                                    the crate-level `encrypt_in_place` / `decrypt_in_place` of `AnyKey` over
+//!                                                    every PUBLIC buffer type: Vec, SecretBytes (exact capacity),
+//!                                                    `Writer::from_slice_position(&mut [u8; n], len)` with n = exact, exact-1,
+//!                                                    exact+extra (two different stale fills); out = result per buffer type
+//!   {"kind":"c12:bufops","cap":n,"init":hex,"stale":a,"ops":[…]}  raw `ResizeBuffer` calls (write / insert / remove / resize /
+//!                                                    extend) on a `Writer<[u8]>` of capacity n, on Vec and on SecretBytes
+//!   {"kind":"c12:misc","probes":[…]}                 guards of `LocalKey::from_seed` and `Argon2::new` (coverage row 20)
 //! The oracle judges the PROPERTY (round trip, layout, every tampering rejected, same error for all same-length
 //! forgeries, errors instead of panics, standards' vectors) and never looks at the Lean model.
 use crate::canon::{jvalue, value_from_json};
@@ -14,6 +22,9 @@ use aries_askar::crypto::alg::{AesTypes, Chacha20Types};
 use aries_askar::kms::{KeyAlg, LocalKey};
 use aries_askar::{Error, ErrorKind};
 use serde_json::{json, Map, Value};
+use askar_crypto::alg::{AnyKey, AnyKeyCreate};
+use askar_crypto::buffer::{ResizeBuffer, SecretBytes, Writer};
+use askar_crypto::encrypt::KeyAeadInPlace;
 use std::collections::BTreeSet;
 use std::panic::{catch_unwind, AssertUnwindSafe};
 
@@ -424,8 +435,265 @@ fn run_op(cx: &mut Ctx, key: &LocalKey, op: &Value) -> Value {
                 Err(()) => json!({"panic": "unwrap"}),
             }
         }
+        "random_nonce" => match guarded(cx, "random_nonce", || key.aead_random_nonce()) {
+            Ok(Ok(n)) => {
+                // ---- oracle: the length `aead_params` announces (0 for key wrap), and not a constant
+                let want = key.aead_params().map(|p| p.nonce_length).unwrap_or(0);
+                let again = key.aead_random_nonce().map(|v| v.to_vec()).unwrap_or_default();
+                let a = cx.alg.clone();
+                if n.len() != want { cx.fail(format!("c12:random-nonce:{}:length differs from aead_params", a), json!({"len": n.len()})); }
+                if !n.is_empty() && n == again { cx.fail(format!("c12:random-nonce:{}:two calls return the same nonce", a), json!({})); }
+                json!({"len": n.len()})
+            }
+            Ok(Err(e)) => jerr2(&e),
+            Err(()) => json!({"panic": "random_nonce"}),
+        },
         o => json!({"err": format!("unknown op {}", o)}),
     }
+}
+
+// ---------------------------------------------------------------------------------------------------------------
+// the buffer type as a dimension (COVERAGE.md row 1): every in-place operation over every public buffer type
+
+fn cerr(e: &askar_crypto::Error) -> Value {
+    json!({"err": format!("{:?}", e.kind()), "msg": e.message()})
+}
+
+#[derive(Clone, Copy)]
+enum BufKind { Vec, Secret, Writer { cap: usize, stale: usize } }
+
+type InPlace<'a> = &'a dyn Fn(&mut dyn ResizeBuffer) -> Result<Option<usize>, askar_crypto::Error>;
+
+fn jdone(view: &[u8], ret: Option<usize>) -> Value {
+    match ret {
+        Some(r) => json!({"buf": jvalue(view), "pos": view.len(), "ret": r}),
+        None => json!({"buf": jvalue(view), "pos": view.len()}),
+    }
+}
+
+/// one in-place call on one buffer type; canonical result: the visible bytes, the position, the returned value — or the
+/// crate-level error — or a panic
+fn inplace(kind: BufKind, input: &[u8], f: InPlace) -> Value {
+    let r = catch_unwind(AssertUnwindSafe(|| -> Value {
+        match kind {
+            BufKind::Vec => {
+                let mut b: Vec<u8> = input.to_vec();
+                match f(&mut b) { Ok(ret) => jdone(&b, ret), Err(e) => cerr(&e) }
+            }
+            BufKind::Secret => {
+                let mut b = SecretBytes::from_slice(input);
+                match f(&mut b) { Ok(ret) => jdone(b.as_ref(), ret), Err(e) => cerr(&e) }
+            }
+            BufKind::Writer { cap, stale } => {
+                let mut arr = pattern(stale, cap);
+                arr[..input.len()].copy_from_slice(input);
+                let mut w = Writer::from_slice_position(&mut arr[..], input.len());
+                match f(&mut w) {
+                    Ok(ret) => { let v: Vec<u8> = AsRef::<[u8]>::as_ref(&w).to_vec(); jdone(&v, ret) }
+                    Err(e) => cerr(&e),
+                }
+            }
+        }
+    }));
+    r.unwrap_or_else(|_| json!({"panic": true}))
+}
+
+fn res_class(v: &Value) -> String {
+    if v.get("panic").is_some() { "panic".into() }
+    else if let Some(k) = v.get("err").and_then(|k| k.as_str()) { format!("err:{}", k) }
+    else { "ok".into() }
+}
+
+fn diff_class(expect: &Value, got: &Value) -> String {
+    if res_class(got) != "ok" || res_class(expect) != "ok" { return res_class(got); }
+    if got["pos"] != expect["pos"] { "ok-wrong-position".into() }
+    else if got["buf"] != expect["buf"] { "ok-wrong-bytes".into() }
+    else if got["ret"] != expect["ret"] { "ok-wrong-return".into() }
+    else { "ok".into() }
+}
+
+fn family(alg: &str) -> &'static str {
+    if is_kw(alg) { "kw" } else if alg.contains("cbc") { "cbchmac" } else if alg == "ed25519" { "none" } else { "stream" }
+}
+
+/// all buffer types for one direction; `need` = the largest length the buffer has during the reference (Vec) run
+fn buf_variants(cx: &mut Ctx, dir: &str, input: &[u8], extra: usize, stale: (usize, usize), f: InPlace) -> Value {
+    let alg = cx.alg.clone();
+    let reference = inplace(BufKind::Vec, input, f);
+    let need = reference["pos"].as_u64().map(|p| (p as usize).max(input.len())).unwrap_or(input.len());
+    let secret = inplace(BufKind::Secret, input, f);
+    let w_exact = inplace(BufKind::Writer { cap: need, stale: stale.0 }, input, f);
+    let w_short = if need > input.len() { inplace(BufKind::Writer { cap: need - 1, stale: stale.0 }, input, f) } else { Value::Null };
+    let w_a = inplace(BufKind::Writer { cap: need + extra, stale: stale.0 }, input, f);
+    let w_b = inplace(BufKind::Writer { cap: need + extra, stale: stale.1 }, input, f);
+    cx.count(&format!("buf:{}:{}", dir, res_class(&reference)));
+    // ---- oracle: the buffer type does not matter — same bytes up to the position, same position, same return value,
+    //      same error; one byte too small is a clean ExceededBuffer error; bytes beyond the position are never read
+    let fam = family(&alg);
+    for (name, got) in [("SecretBytes", &secret), ("Writer<[u8]>:exact", &w_exact), ("Writer<[u8]>:exact+n", &w_a), ("Writer<[u8]>:exact+n", &w_b)] {
+        if got != &reference {
+            cx.fail(format!("c12:buffer:{}:{}:{}:{}→{}", name, dir, fam, res_class(&reference), diff_class(&reference, got)),
+                    json!({"alg": alg, "input_len": input.len(), "cap": need, "expected": reference, "got": got}));
+        }
+    }
+    if !w_short.is_null() {
+        let want = if res_class(&reference) == "ok" { "err:ExceededBuffer".to_string() } else { res_class(&reference) };
+        if res_class(&w_short) != want {
+            cx.fail(format!("c12:buffer:Writer<[u8]>:exact-1:{}:{}:{}→{}", dir, fam, want, res_class(&w_short)),
+                    json!({"alg": alg, "input_len": input.len(), "cap": need - 1, "got": w_short}));
+        }
+        cx.count("buf:short");
+    }
+    if w_a != w_b {
+        cx.fail(format!("c12:buffer:Writer<[u8]>:{}:{}:stale bytes beyond the position are visible", dir, fam), json!({"alg": alg, "a": w_a, "b": w_b}));
+    }
+    json!({"vec": reference, "secret": secret, "w_exact": w_exact, "w_short": w_short, "w_extra_a": w_a, "w_extra_b": w_b})
+}
+
+fn exec_buf(cx: &mut Ctx, case: &Value) -> Value {
+    let a = match alg_of(&cx.alg) { Some(a) => a, None => return json!({"err": "bad alg"}) };
+    let key = match Box::<AnyKey>::from_secret_bytes(a, &cx.key) { Ok(k) => k, Err(e) => return json!({"key": cerr(&e)}) };
+    let msg = value_from_json(&case["msg"]);
+    let (nonce, aad) = (hx(case, "nonce"), value_from_json(&case["aad"]));
+    let extra = case["extra"].as_u64().unwrap_or(64) as usize;
+    let stale = (case["stale"][0].as_u64().unwrap_or(0xEE) as usize, case["stale"][1].as_u64().unwrap_or(0x11) as usize);
+    let enc = buf_variants(cx, "enc", &msg, extra, stale, &|b| key.encrypt_in_place(b, &nonce, &aad).map(Some));
+    // what is decrypted: the case's raw bytes, else the reference ciphertext
+    let input: Option<Vec<u8>> = if case.get("raw").is_some() { Some(value_from_json(&case["raw"])) } else {
+        let mut v = msg.clone();
+        match catch_unwind(AssertUnwindSafe(|| key.encrypt_in_place(&mut v, &nonce, &aad))) { Ok(Ok(_)) => Some(v), _ => None }
+    };
+    let dec = match &input {
+        Some(i) => {
+            let d = buf_variants(cx, "dec", i, extra, stale, &|b| key.decrypt_in_place(b, &nonce, &aad).map(|_| None));
+            // ---- oracle: round trip through the reference buffer
+            if case.get("raw").is_none() && d["vec"]["buf"] != jvalue(&msg) {
+                let alg = cx.alg.clone();
+                cx.fail(format!("c12:roundtrip:{}:decrypt_in_place(encrypt_in_place(m)) != m", alg), json!({"len": msg.len()}));
+            }
+            d
+        }
+        None => Value::Null,
+    };
+    json!({"enc": enc, "dec": dec})
+}
+
+/// raw trait calls on the three buffer types
+fn apply_op(b: &mut dyn ResizeBuffer, op: &Value) -> Result<(), askar_crypto::Error> {
+    let n = |k: &str| op[k].as_u64().unwrap_or(0) as usize;
+    match op["o"].as_str().unwrap_or("") {
+        "write" => b.buffer_write(&hx(op, "d")),
+        "insert" => b.buffer_insert(n("p"), &hx(op, "d")),
+        "remove" => b.buffer_remove(n("s")..n("e")),
+        "resize" => b.buffer_resize(n("n")),
+        "extend" => b.buffer_extend(n("n")).map(|_| ()),
+        _ => Ok(()),
+    }
+}
+
+fn op_steps(b: &mut dyn ResizeBuffer, ops: &[Value]) -> Vec<Value> {
+    let mut out = vec![];
+    for op in ops {
+        match catch_unwind(AssertUnwindSafe(|| apply_op(b, op))) {
+            Ok(Ok(())) => { let v = b.as_ref().to_vec(); out.push(jdone(&v, None)); }
+            Ok(Err(e)) => out.push(cerr(&e)),
+            Err(_) => { out.push(json!({"panic": true})); break; }       // the state after a panic is not inspected
+        }
+    }
+    out
+}
+
+fn exec_bufops(cx: &mut Ctx, case: &Value) -> Value {
+    let cap = case["cap"].as_u64().unwrap_or(0) as usize;
+    let init = hx(case, "init");
+    let stale = case["stale"].as_u64().unwrap_or(0xEE) as usize;
+    let ops = case["ops"].as_array().cloned().unwrap_or_default();
+    if init.len() > cap { return json!({"err": "init longer than cap"}); }
+    let mut v = init.clone();
+    let vec_steps = op_steps(&mut v, &ops);
+    let mut sb = SecretBytes::from_slice(&init);
+    let secret_steps = op_steps(&mut sb, &ops);
+    let mut arr = pattern(stale, cap);
+    arr[..init.len()].copy_from_slice(&init);
+    let writer_steps = {
+        let mut w = Writer::from_slice_position(&mut arr[..], init.len());
+        op_steps(&mut w, &ops)
+    };
+    // ---- oracle: the reference is a plain list with a capacity — an operation whose result fits has the list result,
+    //      one that does not fit is ExceededBuffer and changes nothing; preconditions (pos ≤ len, s ≤ e ≤ len) are the
+    //      generator's business: after a violated one (the Vec panics) nothing is judged any more
+    let mut reference = init.clone();
+    for (i, op) in ops.iter().enumerate() {
+        let mut next = reference.clone();
+        let r = catch_unwind(AssertUnwindSafe(|| apply_op(&mut next, op)));
+        if !matches!(r, Ok(Ok(()))) { break; }
+        let name = op["o"].as_str().unwrap_or("?");
+        let (want, fits) = if next.len() <= cap { (jdone(&next, None), true) } else { (json!({"err": "ExceededBuffer"}), false) };
+        let got = writer_steps.get(i).cloned().unwrap_or(Value::Null);
+        let ok = if fits { got == want } else { got["err"] == "ExceededBuffer" };
+        if !ok {
+            cx.fail(format!("c12:buffer:Writer<[u8]>:op:{}:{}→{}", name, res_class(&want), diff_class(&want, &got)),
+                    json!({"step": i, "op": op, "cap": cap, "before": hex::encode(&reference), "expected": want, "got": got}));
+            break;
+        }
+        if fits { reference = next; }
+        cx.count(&format!("bufop:{}:{}", name, if fits { "fits" } else { "exceeds" }));
+        if secret_steps.get(i) != vec_steps.get(i) {
+            cx.fail(format!("c12:buffer:SecretBytes:op:{}:differs from Vec", name), json!({"step": i, "op": op}));
+            break;
+        }
+    }
+    json!({"vec": vec_steps, "secret": secret_steps, "writer": writer_steps})
+}
+
+/// guards in front of key generation / key derivation (COVERAGE.md row 20)
+fn exec_misc(cx: &mut Ctx, case: &Value) -> Value {
+    let mut out = vec![];
+    for p in case["probes"].as_array().cloned().unwrap_or_default() {
+        let name = p["p"].as_str().unwrap_or("").to_string();
+        cx.count(&format!("probe:{}", name));
+        match name.as_str() {
+            "from_seed" => {
+                let a = alg_of(p["alg"].as_str().unwrap_or("")).expect("alg");
+                let seed = hx(&p, "seed");
+                let method = p["method"].as_str().map(|s| s.to_string());
+                let r = guarded(cx, "from_seed", || LocalKey::from_seed(a, &seed, method.as_deref()));
+                let known = matches!(method.as_deref(), None | Some("") | Some("bls_keygen"));
+                let short_bls = method.as_deref() == Some("bls_keygen") && seed.len() < 32;
+                out.push(match r {
+                    Ok(Ok(k)) => {
+                        // ---- oracle: an unknown method / a short BLS seed never yields a key; the same seed yields the same key
+                        if !known || short_bls { cx.fail("c12:from_seed:a key from an unknown method or a short BLS seed".into(), json!({"p": p})); }
+                        let again = LocalKey::from_seed(a, &seed, method.as_deref()).ok().and_then(|k2| k2.to_secret_bytes().ok()).map(|b| b.to_vec());
+                        if again != k.to_secret_bytes().ok().map(|b| b.to_vec()) { cx.fail("c12:from_seed:not deterministic".into(), json!({"p": p})); }
+                        json!("ok")
+                    }
+                    Ok(Err(e)) => {
+                        if known && !short_bls { cx.fail(format!("c12:from_seed:valid seed refused:{}", kind_name(e.kind())), json!({"p": p})); }
+                        json!({"err": kind_name(e.kind())})
+                    }
+                    Err(()) => json!({"panic": true}),
+                });
+            }
+            "argon2_new" => {
+                let salt = pattern(3, p["salt_len"].as_u64().unwrap_or(0) as usize);
+                let r = catch_unwind(AssertUnwindSafe(|| askar_crypto::kdf::argon2::Argon2::new(b"password", &salt, askar_crypto::kdf::argon2::PARAMS_INTERACTIVE).map(|_| ())));
+                out.push(match r {
+                    Ok(Ok(())) => {
+                        if salt.len() < 16 { cx.fail("c12:argon2:salt shorter than 16 bytes accepted".into(), json!({"len": salt.len()})); }
+                        json!("ok")
+                    }
+                    Ok(Err(e)) => {
+                        if salt.len() >= 16 { cx.fail("c12:argon2:salt of 16 bytes or more refused".into(), json!({"len": salt.len()})); }
+                        json!({"err": format!("{:?}", e.kind())})
+                    }
+                    Err(_) => { cx.fail("c12:panic:argon2_new".into(), json!({})); json!({"panic": true}) }
+                });
+            }
+            _ => out.push(json!({"err": "unknown probe"})),
+        }
+    }
+    Value::Array(out)
 }
 
 // ---------------------------------------------------------------------------------------------------------------
@@ -502,6 +770,9 @@ pub fn exec(case: &Value, _tag: &str) -> Value {
             json!({"sha2": true, "hmac": true, "aes": true, "cbc": true, "keywrap": true, "gcm": true, "chacha20": true,
                    "poly1305": true, "chachapoly": true, "concatkdf": true})
         }
+        "c12:buf" => exec_buf(&mut cx, case),
+        "c12:bufops" => exec_bufops(&mut cx, case),
+        "c12:misc" => exec_misc(&mut cx, case),
         "c12:keylens" => {
             let a = alg_of(&alg).expect("alg");
             let max = case["max"].as_u64().unwrap_or(0) as usize;
@@ -676,6 +947,99 @@ pub fn gen(r: &mut Rng, thorough: bool, count: Option<usize>) -> Vec<Value> {
         json!({"op": "wrap", "palg": "a128gcm", "pkey": hexs(&r.bytes(16)), "nonce": ""}),
         json!({"op": "unwrap", "alg": "a128gcm", "ct": hexs(&r.bytes(32)), "tag": "", "nonce": ""}),
     ]));
+    // ---- the buffer type as a dimension: every in-place operation over Vec, SecretBytes and the fixed-size Writer
+    for alg in ALGS {
+        let kl = key_len(alg);
+        let mut lens: Vec<usize> = if is_kw(alg) { vec![0, 8, 16, 24, 40, 12] } else { vec![0, 1, 15, 16, 17, 33, 64] };
+        if thorough { lens.extend(if is_kw(alg) { vec![32, 48, 64, 128, 256, 7] } else { vec![2, 7, 8, 31, 32, 47, 48, 63, 65, 100, 255, 256, 1000] }); }
+        for len in lens {
+            let key = r.bytes(kl);
+            let (n, a) = (good_nonce(r, alg), aad_for(r, alg));
+            out.push(json!({"kind": "c12:buf", "id": format!("buf-{}-{}", alg, len), "alg": alg, "key": hexs(&key), "msg": msg_spec(r, len),
+                            "nonce": hexs(&n), "aad": hexs(&a), "extra": *r.pick(&[1usize, 16, 64]), "stale": [r.below(256), r.below(256)]}));
+        }
+        // malformed: arbitrary bytes to decrypt (around the tag length), a nonce of the wrong length
+        for rep in 0..(if thorough { 8 } else { 2 }) {
+            let key = r.bytes(kl);
+            let rl = *r.pick(&[0usize, 7, 8, 15, 16, 17, 24, 31, 32, 33, 40, 48]);
+            out.push(json!({"kind": "c12:buf", "id": format!("buf-{}-raw{}", alg, rep), "alg": alg, "key": hexs(&key), "msg": hexs(&r.bytes(8)),
+                            "nonce": hexs(&good_nonce(r, alg)), "aad": hexs(&aad_for(r, alg)), "raw": hexs(&r.bytes(rl)), "extra": 64,
+                            "stale": [r.below(256), r.below(256)]}));
+        }
+        let key = r.bytes(kl);
+        let bad_nonce = pick_bytes(r, &[1, 8, 11, 13, 17, 25]);
+        out.push(json!({"kind": "c12:buf", "id": format!("buf-{}-badnonce", alg), "alg": alg, "key": hexs(&key), "msg": hexs(&r.bytes(16)),
+                        "nonce": hexs(&bad_nonce), "aad": "", "raw": hexs(&r.bytes(40)), "extra": 64, "stale": [r.below(256), r.below(256)]}));
+    }
+    out.push(json!({"kind": "c12:buf", "id": "buf-nonaead", "alg": "ed25519", "key": hexs(&r.bytes(32)), "msg": hexs(&r.bytes(5)),
+                    "nonce": hexs(&r.bytes(12)), "aad": "", "raw": hexs(&r.bytes(32)), "extra": 16, "stale": [1, 2]}));
+    // ---- raw ResizeBuffer calls: sequences within and beyond the capacity, preconditions mostly met
+    for i in 0..(if thorough { 600 } else { 48 }) { out.push(gen_bufops(r, format!("bufops-{}", i))); }
+    // the two calls the in-place operations make on an empty / short prefix (the audit's witnesses)
+    out.push(json!({"kind": "c12:bufops", "id": "bufops-insert0", "cap": 24, "init": hexs(&r.bytes(16)), "stale": 0xEE,
+                    "ops": [{"o": "insert", "p": 0, "d": "0000000000000000"}]}));
+    out.push(json!({"kind": "c12:bufops", "id": "bufops-resize", "cap": 91, "init": hexs(&r.bytes(27)), "stale": 0xEE,
+                    "ops": [{"o": "resize", "n": 11}]}));
+    // ---- key wrap with associated data / nonce in every entry point; random nonces; guards of from_seed and Argon2::new
+    for alg in ["a128kw", "a256kw"] {
+        let key = r.bytes(key_len(alg));
+        let pk = r.bytes(16);
+        let ops = vec![
+            json!({"op": "enc", "msg": hexs(&r.bytes(16)), "nonce": "", "aad": hexs(&r.bytes(5))}),
+            json!({"op": "enc", "msg": hexs(&r.bytes(16)), "nonce": hexs(&r.bytes(8)), "aad": hexs(&r.bytes(5))}),
+            json!({"op": "dec", "ct": hexs(&r.bytes(24)), "tag": "", "nonce": "", "aad": hexs(&r.bytes(1))}),
+            json!({"op": "dec", "ct": hexs(&r.bytes(24)), "tag": "", "nonce": hexs(&r.bytes(12)), "aad": hexs(&r.bytes(13))}),
+            json!({"op": "dec", "ct": hexs(&r.bytes(23)), "tag": "", "nonce": "", "aad": hexs(&r.bytes(64))}),
+            json!({"op": "unwrap", "alg": "a128gcm", "ct": hexs(&r.bytes(24)), "tag": "", "nonce": hexs(&r.bytes(1))}),
+            json!({"op": "wrap", "palg": "a128gcm", "pkey": hexs(&pk), "nonce": hexs(&r.bytes(8))}),
+            json!({"op": "wrap", "palg": "a128gcm", "pkey": hexs(&pk), "nonce": ""}),
+            json!({"op": "random_nonce"}), json!({"op": "params"}),
+        ];
+        out.push(case(format!("kwaad-{}", alg), alg, &key, ops));
+    }
+    for alg in ALGS.iter().chain(["ed25519"].iter()) {
+        if is_kw(alg) { continue; }
+        let key = r.bytes(key_len(alg));
+        out.push(case(format!("rnonce-{}", alg), alg, &key, vec![json!({"op": "random_nonce"}), json!({"op": "params"})]));
+    }
+    {
+        let mut probes = vec![];
+        for method in [json!("bogus"), json!("bls_keygen"), json!(""), Value::Null, json!("BLS_KEYGEN"), json!("bls_keygen ")] {
+            for sl in [0usize, 31, 32, 33] {
+                probes.push(json!({"p": "from_seed", "alg": *r.pick(&ALGS), "seed": hexs(&r.bytes(sl)), "method": method}));
+            }
+        }
+        for sl in (0..=17).chain([32, 64]) { probes.push(json!({"p": "argon2_new", "salt_len": sl})); }
+        out.push(json!({"kind": "c12:misc", "id": "misc-guards", "probes": probes}));
+    }
     if let Some(c) = count { out.truncate(c.max(1)); }
     out
+}
+
+fn gen_bufops(r: &mut Rng, id: String) -> Value {
+    let cap = *r.pick(&[0usize, 1, 8, 16, 24, 32, 64]);
+    let init_len = if r.chance(1, 4) { cap } else { r.below(cap + 1) };
+    let mut len = init_len;
+    let mut ops = vec![];
+    for _ in 0..(6 + r.below(8)) {
+        let bad = r.chance(1, 16);                       // a violated precondition now and then
+        match r.below(5) {
+            0 => { let dl = r.below(10); let d = r.bytes(dl); if len + d.len() <= cap { len += d.len(); } ops.push(json!({"o": "write", "d": hexs(&d)})); }
+            1 => {
+                let p = if bad { len + 1 + r.below(3) } else if r.chance(1, 3) { 0 } else { r.below(len + 1) };
+                let d = pick_bytes(r, &[0, 1, 2, 3, 8, 9, 16]);
+                if len + d.len() <= cap { len += d.len(); }
+                ops.push(json!({"o": "insert", "p": p, "d": hexs(&d)}));
+            }
+            2 => {
+                let e = if bad { len + 1 + r.below(3) } else { r.below(len + 1) };
+                let s = if bad && r.chance(1, 2) { e + 1 } else { r.below(e + 1) };
+                if s <= e && e <= len { len -= e - s; }
+                ops.push(json!({"o": "remove", "s": s, "e": e}));
+            }
+            3 => { let n = r.below(cap + 3); if n <= cap { len = n; } ops.push(json!({"o": "resize", "n": n})); }
+            _ => { let n = r.below(cap.saturating_sub(len) + 3); if len + n <= cap { len += n; } ops.push(json!({"o": "extend", "n": n})); }
+        }
+    }
+    json!({"kind": "c12:bufops", "id": id, "cap": cap, "init": hexs(&r.bytes(init_len)), "stale": 1 + r.below(255), "ops": ops})
 }
